@@ -201,6 +201,29 @@ PROPS['C10'] = dict(
     level_note="Trusted: Coq kernel + vm_compute; hand-written byte-level model of protobuf-go marshalling for these messages; harness. Axioms: none.",
 )
 
+BRANCH_NAMES['codecs16'] = ['observation', 'mutated_obs_decodes', 'mutated_obs_rejected', 'stream_value', 'raw_stream_value', 'offchain', 'offchain_raw',
+                            'llo_onchain', 'mercury_onchain', 'int192', 'int192_raw', 'json_go_only']
+PROPS['C16'] = dict(
+    level='proof',
+    projections=[dict(name='codecs16', spec_index=1, n_quick=900, n_thorough=20000)],
+    rule="codecs16: observations built over the full uint32/uint64 ranges (removal ids, definition votes, values of every type, sign, magnitude, "
+         "scale, negative zero, nested timestamped values) encoded/decoded by the factory-built plugin's ObservationCodec and validated; "
+         "structure-aware mutated observation messages (duplicate removal ids, nil / unknown / negative-typed values, timestamped value "
+         "without inner value, negative legacy timestamp, nil definitions); stream values through MarshalBinary/UnmarshalProtoStreamValue incl. "
+         "truncated and random bytes; LLO offchain configs incl. the D5 witnesses and random bytes; LLO/Mercury onchain configs with version "
+         "words up to 2^255, negative, min>max, wrong lengths; int192 boundary values; retirement reports and Mercury offchain configs (JSON, "
+         "implementation-only round trip). Distinct by SHA-1 of the input.",
+    explanation="Theorems C16_* prove the binary round-trip of every stream value, the LLO offchain config accept-iff-valid law (D5), the "
+                "two's-complement word codecs (int192, onchain configs) with their range/length/version/min<=max rejections. The byte-level "
+                "models (incl. the observation decoder over proto maps in any order and ValidateObservation) are compared with the Go "
+                "decoders on every run and the round-trip / rejection predicate is evaluated on the Go results. PARTIAL: observation-envelope "
+                "and JSON codecs have no round-trip theorem (correspondence + predicate only).",
+    assumptions=["protobuf-go / encoding/json library behaviour as modelled or exercised", "byte strings are shorter than 2^64 bytes"],
+    level_text="Coq theorems for stream-value, config and int192 codecs (round trip, accept-iff-valid, rejections) over byte-level models tied "
+               "to the Go codecs by differential testing; observation envelope and JSON codecs checked on the implementation (partial).",
+    level_note="Trusted: Coq kernel + vm_compute; hand-written byte-level models; harness. Axioms: none.",
+)
+
 
 def load_known_findings(root):
     p = os.path.join(root, 'known_findings.jsonl')
